@@ -23,6 +23,7 @@ import sys
 from . import lib
 from . import filt_common as fc
 from .filt_common import enc, enc_opt, enc_attr, Undef
+from markupsafe import Markup
 
 sys.path.insert(0, os.path.join(lib.ROOT, "gen"))
 
@@ -297,6 +298,9 @@ def shapes(keys_seq):
         "vals": [{"v": KEYS.index(k), "i": i} for i, k in enumerate(keys_seq)],
         "mixed": [[0, "a", None][KEYS.index(k)] for k in keys_seq],
         "lists": [[KEYS.index(k)] for k in keys_seq],
+        # str subclasses (markupsafe.Markup, as produced by |safe / |escape): keys must fold like str
+        "mplain": [Markup(k) for k in keys_seq],
+        "mdict": [{"k": Markup(k), "i": i} for i, k in enumerate(keys_seq)],
     }
 
 
@@ -335,6 +339,15 @@ def grid(sh, light):
                 kw["default"] = default
             out.append((mk("groupby", (attr,), kw, f"groupby {enc_attr(attr)} {enc_opt(default)} {b(cs)}",
                            {"attr": attr, "default": default, "cs": cs}), sh[shape]))
+    # case-insensitive keyed filters on str-subclass keys
+    for shape, attr in (("mplain", None), ("mdict", "k")):
+        kw = {} if attr is None else {"attribute": attr}
+        out.append((mk("unique", (), kw, f"unique 0 {enc_attr(attr)}", {"cs": False, "attr": attr}), sh[shape]))
+        out.append((mk("sort", (), kw, f"sort 0 0 {enc_attr(attr)}", {"reverse": False, "cs": False, "attr": attr}), sh[shape]))
+        if not light:
+            out.append((mk("min", (), kw, f"min 0 {enc_attr(attr)}", {"cs": False, "attr": attr}), sh[shape]))
+            out.append((mk("max", (), kw, f"max 0 {enc_attr(attr)}", {"cs": False, "attr": attr}), sh[shape]))
+    out.append((mk("groupby", ("k",), {}, f"groupby {enc_attr('k')} ? 0", {"attr": "k", "default": None, "cs": False}), sh["mdict"]))
     for start in (0, 5):
         out.append((mk("sum", (), {"start": start}, f"sum a- {enc(start)}", {"attr": None, "start": start}), sh["ints"]))
         out.append((mk("sum", ("v", start), {}, f"sum {enc_attr('v')} {enc(start)}", {"attr": "v", "start": start}), sh["vals"]))
@@ -392,6 +405,10 @@ def dict_cases():
                             byn = {"key": 0, "value": 1, "other": 2}[by]
                             out.append((mk("dictsort", (), {"case_sensitive": cs, "by": by, "reverse": rev},
                                            f"dictsort {b(cs)} {byn} {b(rev)}", {"cs": cs, "by": by, "reverse": rev}), d))
+    for d in ({Markup("b"): 1, Markup("A"): 2, "a": 3}, {"x": Markup("b"), "y": Markup("A"), "z": "a"}):
+        for by in ("key", "value"):
+            out.append((mk("dictsort", (), {"by": by}, f"dictsort 0 {0 if by == 'key' else 1} 0",
+                           {"cs": False, "by": by, "reverse": False}), d))
     for d in ({1: "x", 0: "y", 2: "x"}, {"a": 2, "B": 1, "c": 2}, {"a": 1, 2: 3}):
         for by in ("key", "value"):
             out.append((mk("dictsort", (), {"by": by}, f"dictsort 0 {0 if by == 'key' else 1} 0",
@@ -465,8 +482,8 @@ class Runner:
 def modes_for(case, value, quick=False):
     ms = [("sync", "list")]
     is_list = isinstance(value, list)
-    # quick tier: the longest exhaustive lists skip the plain-generator modes (kept: list + async generator)
-    slim = quick and is_list and len(value) == 5
+    # quick tier: lists of length >= 4 skip the plain-generator modes (kept: list + async generator)
+    slim = quick and is_list and len(value) >= 4
     if is_list and case["filter"] not in NEEDS_SEQUENCE and not slim:
         ms.append(("sync", "gen"))
     ms.append(("async", "list"))
@@ -571,7 +588,7 @@ def build_cases(ctx):
         for ks in itertools.product(KEYS, repeat=n):
             cases += grid(shapes(ks), light=(n == L and ctx.tier != "thorough"))
     cases += dict_cases()
-    for _ in range(ctx.size(120, 1500)):
+    for _ in range(ctx.size(70, 1500)):
         n = ctx.rng.randint(7, 40)
         ks = [ctx.rng.choice(KEYS + ["B", "c"]) if ctx.rng.random() < 0.2 else ctx.rng.choice(KEYS) for _ in range(n)]
         ks = [k if k in KEYS else "b" for k in ks]
@@ -662,7 +679,7 @@ def run(ctx):
         lines.append(f"s {case['call']} | {ev}")
         lines.append(f"a{1 if aug else 0} {case['call']} | {ev}")
     out = ctx.driver("filtcoll", lines)
-    step = ctx.size(23, 7)
+    step = ctx.size(37, 7)
     try:
         for i, (case, value) in enumerate(cases):
             judge(ctx, rn, case, value, out[2 * i], out[2 * i + 1], aug, with_template=(i % step == 0))
